@@ -681,6 +681,26 @@ class Canon:
                 out.append('LOOP(bytes:%s)' % el if a.in_loop else el)
                 continue
             el = self.c(a.elem) if a.elem is not None else '?'
+            if a.in_loop and a.kind == 'bytes' and el.startswith('each(array{') and el.endswith('})'):
+                # `for part in [a, b, c] { v.extend_from_slice(part) }` over a literal array, the append being the only thing the
+                # loop does (no branch in the loop other than the iterator's end test): the same as appending a, b, c in order
+                comp = next((c_ for c_ in self.fn.sccs() if a.block in c_), None)
+                if comp is not None and sum(1 for b_ in comp if self.fn.blocks[b_]['term']['k'] == 'switch') == 1 \
+                        and sum(1 for x_ in seq if x_.in_loop and x_.block in comp and x_.kind != 'other:as_mut_slice') == 1:
+                    parts, depth, cur = [], 0, ''
+                    for ch in el[len('each(array{'):-2]:
+                        if ch in '([{':
+                            depth += 1
+                        elif ch in ')]}':
+                            depth -= 1
+                        if ch == ',' and depth == 0:
+                            parts.append(cur.strip()); cur = ''
+                        else:
+                            cur += ch
+                    if cur.strip():
+                        parts.append(cur.strip())
+                    out.extend(parts)
+                    continue
             if a.in_loop:
                 el = 'LOOP(%s:%s)' % (a.kind, el)
             elif a.kind in ('u8', 'u16', 'u32', 'u64'):
